@@ -46,34 +46,48 @@ def medianValid (z : OSeries) : Option Rat :=
 def fillValue (v : Option Rat) (z : OSeries) : OSeries :=
   z.map (fun x => match x with | some a => some a | none => v)
 
+/-- forward scan for the first valid observation; `off` = position of the head -/
+def scanNext : OSeries → Nat → Option (Nat × Rat)
+  | [], _ => none
+  | some v :: _, off => some (off, v)
+  | none :: l, off => scanNext l (off + 1)
+
+/-- forward scan remembering the latest valid observation seen -/
+def scanLast : OSeries → Nat → Option (Nat × Rat) → Option (Nat × Rat)
+  | [], _, best => best
+  | some v :: l, off, _ => scanLast l (off + 1) (some (off, v))
+  | none :: l, off, best => scanLast l (off + 1) best
+
 /-- closest valid observation strictly before position `i`: `(position, value)` -/
-def prevValid (z : OSeries) (i : Nat) : Option (Nat × Rat) :=
-  ((z.take i).zipIdx.reverse.findSome? (fun (x, j) => x.map (fun v => (j, v))))
+def prevValid (z : OSeries) (i : Nat) : Option (Nat × Rat) := scanLast (z.take i) 0 none
 
 /-- closest valid observation strictly after position `i` -/
-def nextValid (z : OSeries) (i : Nat) : Option (Nat × Rat) :=
-  ((z.drop (i + 1)).zipIdx.findSome? (fun (x, j) => x.map (fun v => (i + 1 + j, v))))
+def nextValid (z : OSeries) (i : Nat) : Option (Nat × Rat) := scanNext (z.drop (i + 1)) (i + 1)
+
+/-- value `interpolate(method="linear")` puts at position `i` holding `x` -/
+def linearAt (z : OSeries) (i : Nat) (x : Option Rat) : Option Rat :=
+  match x with
+  | some v => some v
+  | none =>
+    match prevValid z i, nextValid z i with
+    | some (j, a), some (k, b) => some (a + (b - a) * (((i : Rat) - (j : Rat)) / ((k : Rat) - (j : Rat))))
+    | some (_, a), none => some a
+    | none, _ => none
 
 /-- `interpolate(method="linear")` -/
-def interpLinear (z : OSeries) : OSeries :=
-  z.zipIdx.map (fun (x, i) =>
-    match x with
-    | some v => some v
-    | none =>
-      match prevValid z i, nextValid z i with
-      | some (j, a), some (k, b) => some (a + (b - a) * (((i : Rat) - (j : Rat)) / ((k : Rat) - (j : Rat))))
-      | some (_, a), none => some a
-      | none, _ => none)
+def interpLinear (z : OSeries) : OSeries := z.zipIdx.map (fun p => linearAt z p.2 p.1)
+
+/-- value `interpolate(method="nearest")` puts at position `i` holding `x` -/
+def nearestAt (z : OSeries) (i : Nat) (x : Option Rat) : Option Rat :=
+  match x with
+  | some v => some v
+  | none =>
+    match prevValid z i, nextValid z i with
+    | some (j, a), some (k, b) => if i - j ≤ k - i then some a else some b
+    | _, _ => none
 
 /-- `interpolate(method="nearest")` -/
-def interpNearest (z : OSeries) : OSeries :=
-  z.zipIdx.map (fun (x, i) =>
-    match x with
-    | some v => some v
-    | none =>
-      match prevValid z i, nextValid z i with
-      | some (j, a), some (k, b) => if i - j ≤ k - i then some a else some b
-      | _, _ => none)
+def interpNearest (z : OSeries) : OSeries := z.zipIdx.map (fun p => nearestAt z p.2 p.1)
 
 inductive Method | ffill | bfill | constant | mean | median | linear | nearest | drift | unknown
   deriving DecidableEq, Repr
@@ -89,26 +103,37 @@ def replaceMissing (mv : Option Rat) (z : OSeries) : OSeries :=
   | none => z
   | some m => if m = 0 then z else z.map (fun x => if x = some m then none else x)
 
+/-- the method's own fill (before the final ffill/backfill that every method gets) -/
+def stage1 (m : Method) (value : Option Rat) (z : OSeries) : OSeries :=
+  match m with
+  | .constant => fillValue value z
+  | .ffill => ffill z
+  | .bfill => bfill z
+  | .drift =>
+      -- NaN are filled by ffill + backfill BEFORE the trend is fitted and the result is assigned
+      -- back to Z, so `Z.fillna(value=Z_pred)` finds nothing left to fill
+      bfill (ffill z)
+  | .mean => fillValue (meanValid z) z
+  | .median => fillValue (medianValid z) z
+  | .linear => interpLinear z
+  | .nearest => interpNearest z
+  | .unknown => z
+
+/-- where the method dispatch raises: unknown method; `forecaster.fit` on an all-NaN series
+("Input y contains NaN") -/
+def stage1Err (m : Method) (z : OSeries) : Option Err :=
+  match m with
+  | .unknown => some .value
+  | .drift => if (bfill (ffill z)).any Option.isNone then some .value else none
+  | _ => none
+
 /-- `Imputer(method, value=…, missing_values=…).fit_transform(Z)` for a univariate series -/
 def impute (m : Method) (value mv : Option Rat) (z : OSeries) : Except Err OSeries := do
   checkMethod m value
   if z.isEmpty then .error .value                       -- check_series: empty index
   let z := replaceMissing mv z
-  let z1 ← match m with
-    | .constant => pure (fillValue value z)
-    | .ffill => pure (ffill z)
-    | .bfill => pure (bfill z)
-    | .drift =>
-        -- NaN are filled by ffill + backfill BEFORE the trend is fitted and the result is assigned
-        -- back to Z, so `Z.fillna(value=Z_pred)` finds nothing left to fill
-        let zf := bfill (ffill z)
-        if zf.any Option.isNone then .error .value      -- forecaster.fit: "Input y contains NaN"
-        else pure zf
-    | .mean => pure (fillValue (meanValid z) z)
-    | .median => pure (fillValue (medianValid z) z)
-    | .linear => pure (interpLinear z)
-    | .nearest => pure (interpNearest z)
-    | .unknown => .error .value
-  pure (bfill (ffill z1))
+  match stage1Err m z with
+  | some e => .error e
+  | none => pure (bfill (ffill (stage1 m value z)))
 
 end SkVerif.C14
